@@ -38,7 +38,8 @@ def tbool(b):
 
 
 def cfg(spec, shapes, kinds, threads, episodes, dead_fixed, trust, invs=(), view=False,
-        task_states=TASK_STATES, call_states=CALL_STATES, statuses=REAL_STATUSES, extra=""):
+        task_states=TASK_STATES, call_states=CALL_STATES, statuses=REAL_STATUSES, extra="", merge_atomic=True,
+        priority=False):
     return """SPECIFICATION %s
 CONSTANTS
   ShapeNames = %s
@@ -50,12 +51,16 @@ CONSTANTS
   MaxEpisodes = %d
   NoOpinionInit = %s
   TrustCarried = %s
+  MergeAtomic = %s
+%s
 %s
 %s
 %s
 CHECK_DEADLOCK FALSE
 """ % (spec, tset(shapes), tset(kinds), tset(task_states), tset(call_states), tset(statuses), threads, episodes,
-       tbool(dead_fixed), tbool(trust), ("INVARIANTS " + " ".join(invs)) if invs else "",
+       tbool(dead_fixed), tbool(trust), tbool(merge_atomic),
+       ("  Priority = " + tbool(priority)) if spec == "GenSpec" else "",
+       ("INVARIANTS " + " ".join(invs)) if invs else "",
        "VIEW ViewNoLast" if view else "", extra)
 
 
@@ -140,7 +145,7 @@ def beh_to_steps(beh):
             name = name[2:]
         if name == "Begin":
             steps.append({"a": "Begin", "t": int(args[0]), "leaf": int(args[1]), "kind": unq(args[2]), "v": unq(args[3])})
-        elif name in ("MergeAt", "ReadCache", "Deliver"):
+        elif name in ("MergeEnter", "MergeUnblock", "MergeAssign", "ReadCache", "Deliver"):
             steps.append({"a": name, "t": int(args[0])})
         else:
             raise vlib.Inconclusive("unlabelled step in a TLC behaviour: %r" % (name,))
@@ -238,12 +243,13 @@ def run(ctx):
         _replay_and_validate(ctx, [replay_only], [], None, dead_fixed, trust, quick=True, free=[])
         return
     adapter_sid = _model_check(ctx, quick, names, dead, live, dead_open, stale_open, mc, must_hold, add_cex, predicted,
-                               dead_fixed, W)
+                               dead_fixed, W, trust, lambda sid, shp, steps, origin: scenarios.append(mk_scenario(sid, shp, steps, None, origin)))
     free = _generate(ctx, quick, names, shapes, scenarios, mk_scenario, rng, dead_fixed, trust)
     _replay_and_validate(ctx, scenarios, predicted, adapter_sid, dead_fixed, trust, quick, free)
 
 
-def _model_check(ctx, quick, names, dead, live, dead_open, stale_open, mc, must_hold, add_cex, predicted, dead_fixed, W):
+def _model_check(ctx, quick, names, dead, live, dead_open, stale_open, mc, must_hold, add_cex, predicted, dead_fixed, W,
+                 trust, add_probe):
     # ------------------------------------------------------------------ 1. exhaustive model checking
     ERR = ["ErrorNotLost", "ErrorNotInvented"]
     # 1a/1b sequential, state: every sequence of updates (unbounded length), all shapes. With the deviation open the
@@ -296,6 +302,39 @@ def _model_check(ctx, quick, names, dead, live, dead_open, stale_open, mc, must_
         if ru.violated:
             add_cex(ru, 4, "model-counterexample:FoldInv(status):" + DEV_STALE)
             predicted.append((4, "FoldInv", DEV_STALE))
+    # 1i lock probes. The model of a merge that computes outside the role's lock (MergeAtomic = FALSE) loses an
+    # ERROR / breaks the fold; its counterexample, cut right after the step where the two models part (an update
+    # entering the merge of a role another update is parked in), is imposed on the real code: there the entering
+    # update must be found waiting for the lock ("blocked"); if it gets through, the driver lets it finish first.
+    probes = []
+    for (pid, pshapes, pkind, pinv, pstates) in [(7, ["S03", "S10"], "state", "ErrorNotLost", con_states),
+                                                  (8, ["S03"], "status", "FoldStatusInv", None)] + \
+            ([] if quick else [(9, ["S05"], "state", "ErrorNotLost", con_states), (10, ["S06"], "state", "FoldStateInv", con_states),
+                               (11, ["S11"], "state", "ErrorNotLost", con_states)]):
+        kw = {"task_states": pstates} if pstates else {}
+        rp = ctx.model_check("RoleTreeGen", None, workers=W, timeout=840,
+                             cfg_text=cfg("GenSpec", pshapes, [pkind], 2, 1, dead_fixed,
+                                          trust if pinv == "ErrorNotLost" else False, [pinv], True,
+                                          merge_atomic=False, priority=True, **kw))
+        if not rp.violated:
+            raise vlib.Inconclusive("the model with MergeAtomic = FALSE does not violate %s on %s" % (pinv, pshapes))
+        beh = rp.counterexample()
+        cut = None
+        for i in range(1, len(beh)):
+            name, args, _ = beh[i]
+            if name.replace("G_", "") != "MergeEnter":
+                continue
+            pre = beh[i - 1][2]["thr"]
+            u = int(args[0])
+            me = pre[u - 1]
+            if any(j + 1 != u and w["pc"] == "computed" and w["at"] == me["at"] and w["kind"] == me["kind"] for j, w in enumerate(pre)):
+                cut = i
+                break
+        if cut is None:
+            raise vlib.Inconclusive("no contended merge in the MergeAtomic = FALSE counterexample of " + pinv)
+        add_probe(pid, beh[0][2]["shape"], beh_to_steps(beh[:cut + 1]), "lock-probe:%s:%s" % (pkind, pinv))
+        probes.append(pid)
+    ctx.extra["lock_probes"] = {"scenarios": probes}
     # 1g what the adapter saw last (observation, outside C11)
     ra = mc(["S01", "S03"], ["state"], 2, 1, ["AdapterFresh"], view=False, task_states=["CONFIGURED", "RUNNING"])
     adapter_sid = None
@@ -328,7 +367,7 @@ def _generate(ctx, quick, names, shapes, scenarios, mk_scenario, rng, dead_fixed
         behs = ctx.simulate("RoleTreeGen", None, num, depth, seed=ctx.seed * 7919 + sid,
                             cfg_text=cfg("GenSpec", shp, kinds, threads, 1000000, dead_fixed, trust,
                                          task_states=ALL_STATES if tag == "seq" else TASK_STATES + ["INVARIANT"],
-                                         call_states=CALL_STATES, statuses=ALL_STATUSES))
+                                         call_states=CALL_STATES, statuses=ALL_STATUSES, priority=True))
         for b in behs:
             sid += 1
             shp_name = b[0][2]["shape"]
@@ -338,16 +377,11 @@ def _generate(ctx, quick, names, shapes, scenarios, mk_scenario, rng, dead_fixed
         shp = shapes["S04"]
         steps = []
         for lf in [x for x in range(1, shp.n + 1) if shp.is_leaf(x)]:
-            steps.append({"a": "Begin", "t": 1, "leaf": lf, "kind": "state", "v": "CONFIGURED"})
-            if shp.crit[lf - 1]:
-                x = shp.parent[lf - 1]
-                while x != 0:
-                    steps += [{"a": "MergeAt", "t": 1}, {"a": "ReadCache", "t": 1}]
-                    x = shp.parent[x - 1]
-                steps.append({"a": "Deliver", "t": 1})
+            # "Run" = the driver takes the update to completion, one recorded step per critical section
+            steps += [{"a": "Begin", "t": 1, "leaf": lf, "kind": "state", "v": "CONFIGURED"}, {"a": "Run", "t": 1}]
         scenarios.append(mk_scenario(6, "S04", steps, None, "directed:all-tasks-CONFIGURED"))
     # free-running runs: one goroutine per leaf
-    nfree = 30 if quick else 400
+    nfree = 60 if quick else 400
     free = []
     for i in range(nfree):
         sid += 1
@@ -365,7 +399,7 @@ def _generate(ctx, quick, names, shapes, scenarios, mk_scenario, rng, dead_fixed
             ths.append(ups)
         root, subs = shp.templates(rng if rng.random() < 0.6 else None)
         free.append({"id": sid, "mode": "free", "shape": shp.name, "yaml": root, "subs": subs, "names": shp.names(),
-                     "threads": ths, "rounds": 3 if quick else 5, "origin": "free"})
+                     "threads": ths, "rounds": 15 if quick else 5, "origin": "free"})
     scenarios += free
     sid += 1
     scenarios.append({"id": sid, "mode": "algebra", "origin": "algebra"})
@@ -412,7 +446,7 @@ def _replay_and_validate(ctx, scenarios, predicted, adapter_sid, dead_fixed, tru
     for s in scenarios:
         if s["mode"] == "sched":
             canon = json.dumps([s["shape"], s["yaml"], [(st["a"], st.get("t"), st.get("leaf"), st.get("kind"), st.get("v")) for st in s["steps"]]])
-            ctx.count_case(canon, nontrivial=any(st["a"] == "MergeAt" for st in s["steps"]))
+            ctx.count_case(canon, nontrivial=any(st["a"] in ("MergeEnter", "Run") for st in s["steps"]))
         elif s["mode"] == "free":
             ctx.count_case(json.dumps([s["shape"], s["yaml"], s["threads"]]), nontrivial=True)
     ex = next((s for s in scenarios if s["mode"] == "sched" and s["origin"].startswith("generated:con") and len(s["steps"]) > 8), scenarios[0])
